@@ -3,6 +3,7 @@ CONSTANTS
   MaxR = 1
   MaxD = 2
   DefKinds <- MCKindsQ
+  DDefKinds <- MCDKindsQ
   MaxSpell = 2
 SPECIFICATION Spec
 INVARIANT RecordedOnce
